@@ -289,13 +289,25 @@ func runAlph(c aCase, o aOracles) (*vh.Violation, vh.Outcome) {
 			case 0:
 				t.Payload = append([]byte{TransferTokenPayloadId}, vh.Expand(uint64(x.D+k), 100)...)
 				m.kind = "transfer"
-			case 1:
-				t.Payload = attestPayload(tokenId, 8, "SYM", "Token Name")
+			case 1, 2:
+				// genuine and mismatching attestations share a small pool of tokens whose contracts never change, so that
+				// a correct attestation of a token can be followed by a wrong one of the same token (and vice versa)
+				tokenId = Byte32{0xab, byte((x.D + k) % 2), 31: 0}
+				tokenAddr, _ = ToContractAddress(tokenId.ToHex())
 				sim.tokens[*tokenAddr] = tokenBehaviour{Mode: "ok", Decimals: 8, Symbol: "SYM", Name: "Token Name"}
-				m.kind = "attest"
-			case 2:
-				t.Payload = attestPayload(tokenId, 8, "SYM", "Token Name")
-				sim.tokens[*tokenAddr] = tokenBehaviour{Mode: "ok", Decimals: 9, Symbol: "SYM", Name: "Token Name"} // the token says otherwise
+				if (x.C+k*(1+x.D%4))%6 == 1 {
+					t.Payload = attestPayload(tokenId, 8, "SYM", "Token Name")
+					m.kind = "attest"
+					break
+				}
+				switch x.D % 3 { // the token says otherwise
+				case 0:
+					t.Payload = attestPayload(tokenId, 9, "SYM", "Token Name")
+				case 1:
+					t.Payload = attestPayload(tokenId, 8, "SYN", "Token Name")
+				default:
+					t.Payload = attestPayload(tokenId, 8, "SYM", "Token Nam")
+				}
 				m.attestOK = false
 				m.kind = "attest-mismatch"
 				hostile = true
